@@ -222,6 +222,34 @@ def run(ctx, model_ok):
                                 'actual': {'trace_heads': got_heads, 'name_column': got_names, 'err': [tr['err'], fk['err']]},
                                 'why': 'listing / trace decoding does not use the caller-supplied table (absent id decoded or '
                                        'named, or a decodable name not decoded under the id the table gives it)'})
+    # names of the supplied table that are fragments of a decodable name ('VFS', 'LOOKUP', 'BSC_', ...) are names without a
+    # decoder like any other: their records inside a call's window do not become part of the call
+    from ..harness.streams import path_words
+    rd, op, lk = uni.by_name['BSC_read'][0], uni.by_name['BSC_open'][0], uni.by_name['VFS_LOOKUP'][0]
+    freqs, finfo = [], []
+    for frag in ('VFS', 'LOOKUP', 'VFS_LOOKUP_DONE', 'BSC_', 'BSC_open_nocancel_', 'open', ''):
+        x = uni.unknown(rng)
+        table = {op: 'BSC_open', lk: 'VFS_LOOKUP', rd: 'BSC_read'}
+        if frag:
+            table[x] = frag
+        core = [[1, op, 1, [0x7000, 0, 0o644, 0]], [1, lk, 3, path_words(9, '/tmp/x')], [1, op, 2, [0, 3, 0, 0]]]
+        extra = [[1, x, q, [0x5a5a5a5a5a5a5a5a, 0x2f2f2f2f2f2f2f2f, 0x41, 0x42]] for q in (3, 0, 1, 2)]
+        for hist in (core, core[:2] + extra + core[2:], core[:1] + extra + core[1:]):
+            recs = [D.record(jj + 1, ws, t, c | q) for jj, (t, c, q, ws) in enumerate(hist)]
+            freqs.append({'file': D.build_v2([(1, 1, b'p')], 0, recs).hex(), 'table': sorted(table.items()), 'cfg': {'color': False}, 'calls': ['traces']})
+        finfo.append((frag, table))
+    fres = vlib.run_impl('run_api.py', {'cases': freqs})['results']
+    ctx.evaluations += len(freqs)
+    for j, (frag, table) in enumerate(finfo):
+        ftexts = [[it[4] for it in fres[3 * j + k][0]['items'] if it[6] == op] for k in range(3)]
+        errs = [fres[3 * j + k][0]['err'] for k in range(3)]
+        if any(errs) or ftexts[1] != ftexts[0] or ftexts[2] != ftexts[0]:
+            ctx.failing.append({'input': {'table': sorted(table.items()), 'name_without_decoder': frag, 'api': True,
+                                          'history': 'open(START) lookup open(END), with records of that name inside the window'},
+                                'expected': ftexts[0], 'actual': {'texts': ftexts[1:], 'err': errs},
+                                'why': 'listing / trace decoding does not use the caller-supplied table (absent id decoded or named, or a '
+                                       'decodable name not decoded under the id the table gives it): a record whose name has no decoder '
+                                       'changed the text of the enclosing call'})
     ctx.rule = ('(a) texts of 0..12 lines: ids with/without 0x/0X, mixed case, leading zeros, separators from all inline '
                 'whitespace, names incl. non-ASCII, trailing comments, every line terminator incl. CRLF, last line with/without '
                 'terminator; every 4th text malformed (missing name, bad id, empty/blank line); (b) custom tables (drop / '
